@@ -278,6 +278,21 @@ def model(case):
         preds = sorted(_pred_faces(case, h_items))
         toks = E.hist_tokens(h_items) + [str(len(preds))] + [str(f) for f in preds] + [str(lim[1])]
         lines += [" ".join(["EXPLODE"] + toks), " ".join(["EXPLODESPEC"] + toks)]
+    if case["api"] in ("H.substitute", "P.substitute") and (lim is None or (lim[0] == "i" and 0 <= lim[1] <= 6)):
+        # the very definitions of theorem C08_substitute_eq_spec
+        fam = case["family"]
+        toks = [str(len(fam))]
+        for f in fam:
+            toks += E.hist_tokens(f)
+        toks.append(str(len(fam)))
+        for hi, f in enumerate(fam):
+            faces = sorted({int(o) for o, _ in f})
+            toks.append(str(len(faces)))
+            for j in range(len(faces)):
+                act = case["table"][hi][j % len(case["table"][hi])]
+                toks += (["0", str(act[1])] if act[0] == "out" else ["1", str(act[1])])
+        toks += ["1" if case["coalesce"] == "add" else "0", str(case["start"]), str(1 if lim is None else lim[1])]
+        lines += [" ".join(["SUBST"] + toks), " ".join(["SUBSTSPEC"] + toks)]
     return lines
 
 
